@@ -39,7 +39,7 @@ def check(ctx):
     ctx.check(ok, R, gr, "returned pairs", "returned list = (key component, sample) pairs: preamble, each round in order, leftover under the same guard",
               "the (component, sample) list returned by generate_random_samples changed: %s" % ast.unparse(r[0].value)[:160], r[0])
     ek = ctx.fn("random:UCSolutionEnumerator.extract_sequence_key")
-    fact(ctx, R, ek, "recorded key", Facts(ek).returns(), ["tuple(map(lambda sv: sv[0], solution_variabless))"], "recorded key = first component of every returned pair, in order")
+    fact(ctx, R, ek, "recorded key", Facts(ek).returns(), ["tuple([_b0[0] for _b0 in solution_variabless])"], "recorded key = first component of every returned pair, in order")
     ch = [s for s in statements(gr.node) if isinstance(s, ast.Assign) and dotted(s.targets[0]) == "choice"]
     c0 = ast.unparse(ch[0].value).replace(" ", "") if ch else ""
     ctx.check("random.randrange(0,self._preamble_solution_count)" in c0 and "tuple([self.random_components(self._components_shape,self.crossing_size,0)foriinrange(n)])" in c0 and
@@ -63,8 +63,8 @@ def check(ctx):
     R = "C09.blocking"
     u = ctx.fn("sample_non_uniform:update_file")
     Fu = Facts(u)
-    fact(ctx, R, u, "negation", Fu.assigns("negated_solution"), ["[-var for var in solution]"], "every element of the recorded solution is negated (idioms -x, -1*x, x*-1)")
-    fact(ctx, R, u, "terminator", Fu.assigns("negated_solution_str"), ["' '.join([str(var) for var in concat([-var for var in solution], [0])])"], "terminated by 0")
+    fact(ctx, R, u, "negation", Fu.assigns("negated_solution"), ["[-_b0 for _b0 in solution]"], "every element of the recorded solution is negated (idioms -x, -1*x, x*-1)")
+    fact(ctx, R, u, "terminator", Fu.assigns("negated_solution_str"), ["' '.join([str(_b0) for _b0 in concat([-_b0 for _b0 in solution], [0])])"], "terminated by 0")
     ah = u.nested.get("add_clause_to_header")
     ctx.require(ah is not None, "update_file.add_clause_to_header not found")
     fact(ctx, R, ah, "count + 1", Facts(ah).returns(), ["update_header(1, clause)"], "the header's clause count grows by exactly one")
@@ -88,7 +88,7 @@ def check(ctx):
     raw = Facts(st).assigns("raw_samples")
     ctx.check(len(raw) == 1 and raw[0].endswith(".samples[:samples]"), R, st, "truncate", "synthesize_trials keeps at most `samples` results and adds none", "raw_samples is `%s`" % raw)
     sn = ctx.fn("sample_non_uniform:sample_non_uniform")
-    fact(ctx, R, sn, "one per solution", Facts(sn).returns(), ["[Solution(solution, 1) for solution in compute_solutions(cnf_file, support, count)]"], "each recorded solution is returned once")
+    fact(ctx, R, sn, "one per solution", Facts(sn).returns(), ["[Solution(_b0, 1) for _b0 in compute_solutions(cnf_file, support, count)]"], "each recorded solution is returned once")
 
     # RandomGen returns distinct sequences only if distinct keys are distinct candidates (C06's clauses: counted space = drawn
     # space) and distinct choices -- also the copies of a weighted level -- have distinct variables (C14's clauses)
